@@ -140,14 +140,17 @@ TEXT = {
             'to end: after respond, polling while ready terminates with the whole response in the client\'s receive queue; flush writes '
             'everything queued without polling; these worlds are exactly what well-behaved histories reach (invariant over all '
             'such histories); one IN event through HttpServer::requests equals the specification parser on carry ++ bytes read. '
-            'Responses larger than the socket buffer are not modelled (K3). Real-socket histories with irregular polls and respond-then-flush check '
+            'Write events accept any amount from one byte to everything offered (partial writes, responses larger than the socket '
+            'buffer are inside the theorems; the executable model uses whole writes). Real-socket histories with irregular polls and respond-then-flush check '
             'yield counts, full delivery and quiescence.', 'DESIGN.md section 5 C08',
             'Coq proof (interest invariant, readiness lemmas, well-founded progress measure, conservation) + real-socket correspondence'),
     'C09': ('Coq theorems: from every world satisfying the invariant, for every batch of events allowed by the kernel contract '
             'in any order, the polling function yields and keeps the invariant (never InvalidWrite, never the unwrap panic; only '
             'other outcome: u32 overflow of an in-flight counter); handling an event leaves every other connection untouched; '
-            'after the sweep no entry is closed-with-nothing-pending-and-nothing-in-flight; respond and flush keep the invariant. '
-            'Real-socket histories: a witness doing round trips among clients that send garbage, half-close, close, stop reading, '
+            'after the sweep no entry is closed-with-nothing-pending-and-nothing-in-flight; respond and flush keep the invariant; '
+            'and the executable interpreter the correspondence run uses never leaves the invariant: after ANY list of operations '
+            '(all client behaviours, polls, responses to any held token, flush, kill, limit) Inv holds and the next poll can only '
+            'block, yield, report shutdown or overflow a u32 counter. Real-socket histories: a witness doing round trips among clients that send garbage, half-close, close, stop reading, '
             'with late or missing answers.', 'DESIGN.md section 5 C09',
             'Coq proof (invariant by induction over event batches) + real-socket correspondence'),
     'C10': ('Coq theorems: |connections| <= 10 in every world satisfying the invariant; a listener event refuses iff the table '
